@@ -204,8 +204,10 @@ class Matcher:
                 break
         return out, t
 
-    def chain(self, t, specs, d, path, owner_quals=None, name_expected=True):
-        """Match type chain `t` against model dtor `d` + specs (base)."""
+    def chain(self, t, specs, d, path, owner=None, name_expected=True):
+        """Match type chain `t` against model dtor `d` + specs (base).  `owner` is the model node of
+        the whole declaration / parameter / type name (its span is the construct for derivation nodes)."""
+        span_node = owner if owner is not None else d
         while specs["ts"].k == "atomic":
             specs, d = expand_atomic(specs, d)
         derivs, td = self.read_chain(t, path)
@@ -215,7 +217,7 @@ class Matcher:
             return
         for i, ((kind, node), mdv) in enumerate(zip(derivs, md)):
             p = f"{path}.deriv[{i}]"
-            self.pair(node, d, "deriv")
+            self.pair(node, span_node, "deriv")
             if kind == "ptr":
                 if set(node.quals or []) != set(mdv[1]):
                     self.fail(p + ".quals", mdv[1], node.quals)
@@ -310,7 +312,7 @@ class Matcher:
         for i, (g, (kind, m, d)) in enumerate(zip(got, exp)):
             p = f"{path}.member[{i}]"
             if kind == "dtor":
-                self.decl_one(g, m["specs"], d, p, "Decl")
+                self.decl_one(g, m["specs"], d, p, "Decl", owner=m)
             elif kind == "anon":
                 if self.cls(g, "Decl", p):
                     self.pair(g, m)
@@ -366,7 +368,7 @@ class Matcher:
         self.pair(a, tn)
         if a.name is not None:
             self.fail(path + ".name", None, a.name)
-        self.chain(a.type, tn["specs"], tn["dtor"], path)
+        self.chain(a.type, tn["specs"], tn["dtor"], path, owner=tn)
 
     def param(self, a, pm, path):
         d = pm["dtor"]
@@ -374,7 +376,7 @@ class Matcher:
             if not self.cls(a, "Typename", path):
                 return
             self.pair(a, pm)
-            self.chain(a.type, pm["specs"], d, path)
+            self.chain(a.type, pm["specs"], d, path, owner=pm)
         else:
             self.decl_one(a, pm["specs"], d, path, "Decl", owner=pm)
 
@@ -384,7 +386,7 @@ class Matcher:
             want = "Typedef"
         if not self.cls(a, want, path):
             return
-        self.pair(a, d, "decl")
+        self.pair(a, owner if owner is not None else d, "decl")
         if a.name != d["name"]:
             self.fail(path + ".name", d["name"], a.name)
         if list(a.storage or []) != in_order(specs, "storage"):
@@ -417,7 +419,7 @@ class Matcher:
             if not d["derivs"] or True:
                 if set(a.quals or []) != set(specs["quals"]):
                     self.diag.append((path + ".quals-mirror", specs["quals"], list(a.quals or [])))
-        self.chain(a.type, specs, d, path)
+        self.chain(a.type, specs, d, path, owner=owner)
 
     def decl(self, nodes, m, path, want="Decl"):
         """A declaration with n declarators -> n consecutive AST nodes (or one
@@ -440,7 +442,7 @@ class Matcher:
             self.fail(path + ".declarators", n, len(nodes))
             return n
         for i, d in enumerate(m["dtors"]):
-            self.decl_one(nodes[i], m["specs"], d, f"{path}.dtor[{i}]", want)
+            self.decl_one(nodes[i], m["specs"], d, f"{path}.dtor[{i}]", want, owner=m)
         return n
 
     # ------------------------------------------------------------ statements
@@ -499,7 +501,7 @@ class Matcher:
 
     def item(self, g, kind, m, d, p):
         if kind == "decl1":
-            self.decl_one(g, m["specs"], d, p, "Decl")
+            self.decl_one(g, m["specs"], d, p, "Decl", owner=m)
         elif kind == "declanon":
             self.decl([g], m, p)
         elif kind == "sassert":
@@ -573,7 +575,9 @@ class Matcher:
                     self.fail(path + ".init", None, type(a.init).__name__)
             elif mi.k == "decl":
                 if self.cls(a.init, "DeclList", path + ".init"):
-                    self.pair(a.init, mi)
+                    # DeclList takes the coordinate of the 'for' token (pinned by test_forloop_coord):
+                    # its construct is the for statement
+                    self.pair(a.init, m, "declist")
                     n = self.decl(list(a.init.decls), mi, path + ".init")
                     if len(a.init.decls) != n:
                         self.fail(path + ".init.len", n, len(a.init.decls))
@@ -777,7 +781,7 @@ class Matcher:
         if not self.cls(a, "FuncDef", path):
             return
         self.pair(a, m)
-        self.decl_one(a.decl, m["specs"], m["dtor"], path + ".decl", "Decl")
+        self.decl_one(a.decl, m["specs"], m["dtor"], path + ".decl", "Decl", owner=m)
         kr = m.get("krdecls")
         if not kr:
             if a.param_decls:
@@ -789,7 +793,7 @@ class Matcher:
                 self.fail(path + ".param_decls.len", len(exp), len(got))
             else:
                 for i, (g, (d, dt)) in enumerate(zip(got, exp)):
-                    self.decl_one(g, d["specs"], dt, f"{path}.param_decls[{i}]", "Decl")
+                    self.decl_one(g, d["specs"], dt, f"{path}.param_decls[{i}]", "Decl", owner=d)
         self.stmt(a.body, m["body"], path + ".body")
 
 
